@@ -138,6 +138,7 @@ func TestExplore(t *testing.T) {
 		ex := &vsched.Explorer{Bound: p.Bound, Shard: shard, NShards: nshards, Deadline: tupleDeadline}
 		cfg := sc.Cfg
 		cfg.Desc = p.V["desc"] == 1
+		cfg.LazyStart = p.V["lazy"] == 1
 		ex.Run = func(prefix []int, fps []uint64) *vsched.Exec {
 			return vsched.RunOnce(t, cfg, prefix, fps, func(s *vsched.Sched) { sc.Body(s, p) })
 		}
@@ -194,6 +195,7 @@ func TestReplay(t *testing.T) {
 	}
 	cfg := sc.Cfg
 	cfg.Desc = rec.Param.V["desc"] == 1
+	cfg.LazyStart = rec.Param.V["lazy"] == 1
 	cfg.Trace = os.Getenv("VNOTRACE") == ""
 	if os.Getenv("VPRE") != "" {
 		vsched.RunOnce(t, sc.Cfg, nil, nil, func(s *vsched.Sched) { sc.Body(s, rec.Param) })
@@ -276,6 +278,7 @@ func TestRegressions(t *testing.T) {
 		os.Setenv("VTAGS", c.tags)
 		cfg := sc.Cfg
 		cfg.Desc = prm.V["desc"] == 1
+		cfg.LazyStart = prm.V["lazy"] == 1
 		var bad []string
 		n := 0
 		ex := &vsched.Explorer{Bound: c.bound}
